@@ -56,6 +56,7 @@ type FuncContract struct {
 	PureCalls  []string // callees with a pure_if contract whose condition is proved at every call here
 	Forget     []string // callees whose contracts this proof does not use (treated as uncontracted: havoc by write set)
 	Unfold     []string // opaque specs whose definitions this function's proof needs from callee contracts
+	Fold       []string // opaque specs kept uninterpreted (no definition) where applied to a bound variable of a quantifier
 	DynPreserves []string // fields that code reached through dynamic calls is assumed to leave unchanged
 	AssumeLoads string // spec predicate assumed of every interface value loaded from a struct field / slice element
 	Stable     []string // slices whose backing arrays are assumed not to be written during the call
@@ -73,6 +74,7 @@ type CallSpec struct {
 	Args     []string
 	As       string // optional ghost name for the result of the (last) matching call
 	WhenRet  string // condition over the results, evaluated at each return
+	Loop     int    // at_call: -1 every site, 0 sites outside loops, k sites whose innermost loop is loop k
 	When     string
 	Negative bool
 	Clause   *Clause
@@ -448,11 +450,20 @@ func (cs *ContractSet) parseFile(path, pkg string) error {
 					return fmt.Errorf("%s:%d: at_call needs F : expr", path, line)
 				}
 				callee := strings.TrimSpace(rest[:i])
+				// "F @k": only the call sites inside loop k (ordinal as in invariant@k; the
+				// innermost loop containing the site), "F @0": only the sites outside all loops
+				loop := -1
+				if j := strings.Index(callee, "@"); j > 0 {
+					if _, err := fmt.Sscanf(strings.TrimSpace(callee[j+1:]), "%d", &loop); err != nil {
+						return fmt.Errorf("%s:%d: at_call F @k : expr needs a loop ordinal", path, line)
+					}
+					callee = strings.TrimSpace(callee[:j])
+				}
 				if callee != "select" && (strings.HasPrefix(callee, "(") || !strings.Contains(callee, ".")) {
 					callee = pkg + "." + callee
 				}
 				cl.Text = strings.TrimSpace(rest[i+1:])
-				cur.AtCalls = append(cur.AtCalls, &CallSpec{Callee: callee, When: "", Clause: cl})
+				cur.AtCalls = append(cur.AtCalls, &CallSpec{Callee: callee, When: "", Clause: cl, Loop: loop})
 				lastText = &cl.Text
 			case "calls", "nocall":
 				cs, err := parseCallSpec(rest, pkg)
@@ -511,6 +522,9 @@ func (cs *ContractSet) parseFile(path, pkg string) error {
 				lastText = nil
 			case "unfold":
 				cur.Unfold = append(cur.Unfold, strings.Fields(strings.ReplaceAll(rest, ",", " "))...)
+				lastText = nil
+			case "fold":
+				cur.Fold = append(cur.Fold, strings.Fields(strings.ReplaceAll(rest, ",", " "))...)
 				lastText = nil
 			case "dyn_preserves":
 				for _, x := range strings.Split(rest, ",") {
